@@ -290,3 +290,232 @@ Proof.
   - intros (A & B & D). split; auto. split; auto. intros Es. destruct (D Es) as (D1 & D2 & D3). split; auto.
     split; auto. rewrite upd_other; auto. intros E. rewrite E in D2. congruence.
 Qed.
+
+Ltac others := intros ? ?; cbn; rewrite ?upd_other by assumption; auto.
+Ltac own_same x Io HT Hpc t :=
+  apply (own_ext _ _ (held x)); [|exact Io]; intros [|v]; cbn; [reflexivity|];
+  destruct (Nat.eq_dec v t) as [->|?];
+  [ rewrite upd_same, <- HT; unfold hnodes; cbn [pc node sh]; rewrite Hpc; reflexivity
+  | rewrite upd_other by assumption; reflexivity ].
+Ltac tail_same I HT Hpc :=
+  eapply tail_ok_upd; [apply (g_tail _ _ _ I)|reflexivity|reflexivity
+                      |rewrite <- HT, Hpc; discriminate|cbn; discriminate].
+Ltac fin_own x Io Hh t T' pl :=
+  apply (own_ext _ _ (fun i => match i with 0 => pl | S u => if Nat.eqb u t then hnodes T' else held x (S u) end));
+  [ intros [|u]; cbn; auto; destruct (Nat.eqb_spec u t) as [->|];
+    [rewrite upd_same|rewrite upd_other by auto]; reflexivity | ].
+
+Theorem linv_step U start x t : LInv U start x -> LInv U start (lstep x t).
+Proof.
+  intros I. unfold lstep, step. remember (thr (base x) t) as T eqn:HT.
+  assert (LT := g_loc _ _ _ I t). rewrite <- HT in LT. unfold lok in LT.
+  assert (Hh : held x (S t) = hnodes T) by (cbn; rewrite <- HT; reflexivity).
+  pose proof (g_own _ _ _ I) as Io.
+  destruct (pc T) eqn:Hpc; cbn [fst].
+  - (* HData *)
+    eapply frame_step with (t := t); [exact I|reflexivity|reflexivity|reflexivity|reflexivity|..];
+      cbn [base qs hist ver sver pv ctr hnode tail next data pool thr set_thr].
+    + others.
+    + own_same x Io HT Hpc t.
+    + intros n Hn. split; auto. apply upd_other. intros ->. apply Hn. rewrite Hh. unfold hnodes. rewrite Hpc. left; auto.
+    + tail_same I HT Hpc.
+    + auto.
+    + rewrite upd_same. unfold lok; cbn. rewrite upd_same. auto.
+    + apply (g_hist _ _ _ I).
+  - (* PTail *)
+    eapply frame_step with (t := t); [exact I|reflexivity|reflexivity|reflexivity|reflexivity|..];
+      cbn [base qs hist ver sver pv ctr hnode tail next data pool thr set_thr].
+    + others.
+    + own_same x Io HT Hpc t.
+    + auto.
+    + tail_same I HT Hpc.
+    + auto.
+    + rewrite upd_same. unfold lok; cbn. tauto.
+    + apply (g_hist _ _ _ I).
+  - (* PNull *)
+    eapply frame_step with (t := t); [exact I|reflexivity|reflexivity|reflexivity|reflexivity|..];
+      cbn [base qs hist ver sver pv ctr hnode tail next data pool thr set_thr].
+    + others.
+    + own_same x Io HT Hpc t.
+    + intros n Hn. split; auto. apply upd_other. intros ->. apply Hn. rewrite Hh. unfold hnodes. rewrite Hpc. left; auto.
+    + tail_same I HT Hpc.
+    + auto.
+    + rewrite upd_same. unfold lok; cbn. rewrite upd_same. tauto.
+    + apply (g_hist _ _ _ I).
+  - (* PLink *)
+    destruct LT as (L0 & L1 & L2 & L3). subst t.
+    destruct I as [Ic Ine It Io' Iv Il Ih].
+    assert (Hl : last (qs x) 0 = ltl T).
+    { unfold tail_ok in It. rewrite <- HT, Hpc in It. congruence. }
+    assert (Hn : In (node T) (held x 1)) by (rewrite Hh; unfold hnodes; rewrite Hpc; left; auto).
+    assert (Hlz : next (base x) (ltl T) = 0) by (rewrite <- Hl; eapply chain_last; eauto).
+    constructor; cbn [base qs hist ver sver pv ctr hnode tail next data pool thr].
+    + rewrite (app_removelast_last 0 Ine) in *. rewrite Hl in *. rewrite <- app_assoc.
+      apply chain_snoc; auto.
+      * apply (o_hnz _ _ _ Io 1); auto.
+      * apply (o_hs _ _ _ Io 1); auto.
+      * apply (o_nodup _ _ _ Io).
+    + destruct (qs x); discriminate.
+    + unfold tail_ok; cbn. rewrite upd_same. cbn. apply last_last.
+    + apply (own_give_end U (qs x) (held x) _ 1 (node T)); auto.
+      * intros [|[|u]] Hu; cbn; try congruence. rewrite upd_other by lia. reflexivity.
+      * cbn. rewrite upd_same, <- HT. unfold hnodes; cbn [pc]. rewrite Hpc. apply Permutation_refl.
+    + exact Iv.
+    + intros u. thr_cases u 0.
+      * unfold lok; cbn. reflexivity.
+      * apply lok_link; auto.
+    + rewrite replay_app, Ih. cbn.
+      destruct (qs x) as [|a r]; [congruence|]. cbn. rewrite map_app. cbn. rewrite L1. reflexivity.
+  - (* PSetTail *)
+    destruct (finish t T false (pool (base x))) as [[T' pl] e] eqn:Ef. cbn [fst].
+    pose proof (finish_spec t T false (pool (base x))) as Fr. rewrite Ef in Fr. cbn [fst snd] in Fr.
+    assert (Hn : hnodes T = []) by (unfold hnodes; rewrite Hpc; reflexivity).
+    eapply frame_step with (t := t); [exact I|reflexivity|reflexivity|reflexivity|reflexivity|..];
+      cbn [base qs hist ver sver pv ctr hnode tail next data pool thr set_thr].
+    + others.
+    + fin_own x Io Hh t T' pl.
+      apply (finish_own U (qs x) (held x) t (hnodes T) T' pl Io Hh); [left; auto|].
+      rewrite Hn. exact Fr.
+    + auto.
+    + subst t. pose proof (g_tail _ _ _ I) as It. unfold tail_ok in *. cbn. rewrite upd_same.
+      rewrite <- HT, Hpc in It. rewrite It.
+      pose proof (fresh_not_settail _ _ _ _ Fr). destruct (pc T'); congruence.
+    + intros Hne. congruence.
+    + rewrite upd_same. eapply fresh_lok; eauto.
+    + apply (g_hist _ _ _ I).
+  - (* QCtr *)
+    eapply frame_step with (t := t); [exact I|reflexivity|reflexivity|reflexivity|reflexivity|..];
+      cbn [base qs hist ver sver pv ctr hnode tail next data pool thr set_thr].
+    + others.
+    + own_same x Io HT Hpc t.
+    + auto.
+    + tail_same I HT Hpc.
+    + auto.
+    + rewrite !upd_same. unfold lok, scok; cbn. split; auto. apply (g_ver _ _ _ I).
+    + apply (g_hist _ _ _ I).
+  - (* QNode *)
+    eapply frame_step with (t := t); [exact I|reflexivity|reflexivity|reflexivity|reflexivity|..];
+      cbn [base qs hist ver sver pv ctr hnode tail next data pool thr set_thr].
+    + others.
+    + own_same x Io HT Hpc t.
+    + auto.
+    + tail_same I HT Hpc.
+    + auto.
+    + rewrite !upd_same. unfold lok; cbn. split; auto.
+    + apply (g_hist _ _ _ I).
+  - (* QNext *)
+    destruct LT as (L1 & L2).
+    destruct (next (base x) (sh T)) eqn:En.
+    + destruct (finish t T false (pool (base x))) as [[T' pl] e] eqn:Ef. cbn [fst].
+      pose proof (finish_spec t T false (pool (base x))) as Fr. rewrite Ef in Fr. cbn [fst snd] in Fr.
+      assert (Hn : hnodes T = []) by (unfold hnodes; rewrite Hpc; reflexivity).
+      eapply frame_step with (t := t); [exact I|reflexivity|reflexivity|reflexivity|reflexivity|..];
+        cbn [base qs hist ver sver pv ctr hnode tail next data pool thr set_thr].
+      * others.
+      * fin_own x Io Hh t T' pl.
+        apply (finish_own U (qs x) (held x) t (hnodes T) T' pl Io Hh); [left; auto|].
+        rewrite Hn. exact Fr.
+      * auto.
+      * eapply tail_ok_upd; [apply (g_tail _ _ _ I)|reflexivity|reflexivity
+                            |rewrite <- HT, Hpc; discriminate|eapply fresh_not_settail; eauto].
+      * auto.
+      * rewrite upd_same. eapply fresh_lok; eauto.
+      * rewrite replay_app, (g_hist _ _ _ I).
+        destruct (Nat.eqb_spec (sver x t) (ver x)) as [Es|Es]; cbn; [|reflexivity].
+        pose proof (g_chain _ _ _ I) as C. rewrite (L2 Es) in C.
+        assert (Hz : sh T <> 0).
+        { pose proof (g_ne _ _ _ I). destruct (qs x); [congruence|]. cbn in C. destruct C as (-> & Z & _). exact Z. }
+        destruct (chain_cons_inv _ _ _ C Hz) as (r & Er & Cr). rewrite En in Cr. apply chain_zero in Cr.
+        rewrite Er, Cr. cbn. reflexivity.
+    + cbn [fst].
+      eapply frame_step with (t := t); [exact I|reflexivity|reflexivity|reflexivity|reflexivity|..];
+        cbn [base qs hist ver sver pv ctr hnode tail next data pool thr set_thr].
+      * others.
+      * own_same x Io HT Hpc t.
+      * auto.
+      * tail_same I HT Hpc.
+      * auto.
+      * rewrite !upd_same. unfold lok; cbn. rewrite En. split; auto. split; [discriminate|].
+        intros Es. split; auto.
+      * apply (g_hist _ _ _ I).
+  - (* QData *)
+    destruct LT as (L1 & L2 & L3).
+    eapply frame_step with (t := t); [exact I|reflexivity|reflexivity|reflexivity|reflexivity|..];
+      cbn [base qs hist ver sver pv ctr hnode tail next data pool thr set_thr].
+    + others.
+    + own_same x Io HT Hpc t.
+    + auto.
+    + tail_same I HT Hpc.
+    + auto.
+    + rewrite !upd_same. unfold lok; cbn. split; auto. split; auto. intros Es. destruct (L3 Es). auto.
+    + apply (g_hist _ _ _ I).
+  - (* QCas *)
+    destruct LT as ([L1 L1'] & L2 & L3).
+    destruct (cas_ok (base x) T) eqn:Ec; unfold cas_ok in Ec; rewrite Ec.
+    + cbn [fst]. apply andb_true_iff in Ec. destruct Ec as [Ec _]. apply Z.eqb_eq in Ec.
+      destruct I as [Ic Ine It Io' Iv Il Ih].
+      assert (Es : sver x t = ver x) by lia. destruct (L3 Es) as (D1 & D2 & D3).
+      assert (Hz : sh T <> 0).
+      { destruct (qs x); [congruence|]. cbn in Ic. destruct Ic as (E0 & Z & _). congruence. }
+      rewrite D1 in Ic. destruct (chain_cons_inv _ _ _ Ic Hz) as (r1 & Er1 & Cr1). rewrite D2 in Cr1.
+      destruct (chain_cons_inv _ _ _ Cr1 L2) as (r2 & Er2 & Cr2).
+      constructor; cbn [base qs hist ver sver pv ctr hnode tail next data pool thr].
+      * rewrite Er1. cbn [tl]. exact Cr1.
+      * rewrite Er1, Er2. discriminate.
+      * unfold tail_ok in *. cbn. rewrite Er1, Er2 in *.
+        change (last (sh T :: sn T :: r2) 0) with (last (sn T :: r2) 0) in It. rewrite It. cbn [tl].
+        destruct (Nat.eq_dec t 0) as [->|Hn]; [rewrite upd_same, <- HT, Hpc; reflexivity|].
+        rewrite upd_other by auto. reflexivity.
+      * apply (own_take U [sh T] (tl (qs x)) (held x) _ (S t)).
+        -- intros [|u] Hu; cbn; auto. rewrite upd_other by congruence. reflexivity.
+        -- cbn. rewrite upd_same, <- HT. unfold hnodes; cbn [pc sh]. rewrite Hpc. apply Permutation_refl.
+        -- rewrite Er1. cbn. rewrite Er1 in Io. exact Io.
+      * lia.
+      * intros u. thr_cases u t.
+        -- unfold lok; cbn. reflexivity.
+        -- apply lok_bump. apply Il.
+      * rewrite replay_app, Ih, Er1, Er2. cbn. rewrite D3, Nat.eqb_refl. reflexivity.
+    + destruct (finish t T (drain T) (pool (base x))) as [[T' pl] e] eqn:Ef. cbn [fst].
+      pose proof (finish_spec t T (drain T) (pool (base x))) as Fr. rewrite Ef in Fr. cbn [fst snd] in Fr.
+      assert (Hn : hnodes T = []) by (unfold hnodes; rewrite Hpc; reflexivity).
+      eapply frame_step with (t := t); [exact I|reflexivity|reflexivity|reflexivity|reflexivity|..];
+        cbn [base qs hist ver sver pv ctr hnode tail next data pool thr set_thr].
+      * others.
+      * fin_own x Io Hh t T' pl.
+        apply (finish_own U (qs x) (held x) t (hnodes T) T' pl Io Hh); [left; auto|].
+        rewrite Hn. exact Fr.
+      * auto.
+      * eapply tail_ok_upd; [apply (g_tail _ _ _ I)|reflexivity|reflexivity
+                            |rewrite <- HT, Hpc; discriminate|eapply fresh_not_settail; eauto].
+      * auto.
+      * rewrite upd_same. eapply fresh_lok; eauto.
+      * apply (g_hist _ _ _ I).
+  - (* QWData *)
+    eapply frame_step with (t := t); [exact I|reflexivity|reflexivity|reflexivity|reflexivity|..];
+      cbn [base qs hist ver sver pv ctr hnode tail next data pool thr set_thr].
+    + others.
+    + own_same x Io HT Hpc t.
+    + intros n Hn. split; auto. apply upd_other. intros ->. apply Hn. rewrite Hh. unfold hnodes. rewrite Hpc. left; auto.
+    + tail_same I HT Hpc.
+    + auto.
+    + rewrite upd_same. unfold lok; cbn. rewrite upd_same. exact LT.
+    + apply (g_hist _ _ _ I).
+  - (* QRData *)
+    destruct (finish t T (drain T) (sh T :: pool (base x))) as [[T' pl] e] eqn:Ef. cbn [fst].
+    pose proof (finish_spec t T (drain T) (sh T :: pool (base x))) as Fr. rewrite Ef in Fr. cbn [fst snd] in Fr.
+    assert (Hn : hnodes T = [sh T]) by (unfold hnodes; rewrite Hpc; reflexivity).
+    eapply frame_step with (t := t); [exact I|reflexivity|reflexivity|reflexivity|reflexivity|..];
+      cbn [base qs hist ver sver pv ctr hnode tail next data pool thr set_thr].
+    + others.
+    + fin_own x Io Hh t T' pl.
+      apply (finish_own U (qs x) (held x) t (hnodes T) T' pl Io Hh); [right; eauto|].
+      rewrite Hn. exact Fr.
+    + auto.
+    + eapply tail_ok_upd; [apply (g_tail _ _ _ I)|reflexivity|reflexivity
+                          |rewrite <- HT, Hpc; discriminate|eapply fresh_not_settail; eauto].
+    + auto.
+    + rewrite upd_same. eapply fresh_lok; eauto.
+    + apply (g_hist _ _ _ I).
+  - (* Fin *)
+    destruct x; cbn in *; exact I.
+Qed.
